@@ -75,4 +75,24 @@ Fixpoint gfailing_from (i : N) (l : list gcase) : list (N * (N * N)) :=
   | g :: l' => let c := gcase_code g in if N.eqb c 0 then gfailing_from (N.succ i) l' else (i, (c, 0%N)) :: gfailing_from (N.succ i) l'
   end.
 Definition gfailing (l : list gcase) : list (N * (N * N)) := gfailing_from 0 l.
+
+(** the motor law alone: compute_torque then compute_electric_current at a given speed and duty cycle *)
+Inductive mexp := MOk (T : fu) (cur : option fu) | MErr (e : exn).
+Record mcase := { mc_motor : @motor FX; mc_spd : fqty; mc_pwm : float; mc_exp : mexp }.
+Definition mcase_code (k : mcase) : N :=
+  let r := (d <- motor_torque (mc_motor k) (mc_spd k) (mc_pwm k) ;; c <- motor_current (mc_motor k) d (mc_pwm k) ;; Ok (d, c)) in
+  match r, mc_exp k with
+  | Ok (d, c), MOk T cur =>
+      if negb (fu_eqb d T) then 6
+      else if match c, cur with None, None => true | Some q, Some x => fu_eqb q x | _, _ => false end then 0 else 9
+  | Err e, MErr e' => if exn_eqb e e' then 0 else 12
+  | Ok _, MErr _ => 13
+  | Err _, MOk _ _ => 14
+  end.
+Fixpoint mfailing_from (i : N) (l : list mcase) : list (N * (N * N)) :=
+  match l with
+  | [] => []
+  | g :: l' => let c := mcase_code g in if N.eqb c 0 then mfailing_from (N.succ i) l' else (i, (c, 0%N)) :: mfailing_from (N.succ i) l'
+  end.
+Definition mfailing (l : list mcase) : list (N * (N * N)) := mfailing_from 0 l.
 End Corr.
